@@ -58,10 +58,21 @@ def _tags(node):
 
 
 def read_reader():
-    info = {"reader_keys": [MISSING], "reader_fallback": MISSING, "iter_source": MISSING}
+    info = {"reader_keys": [MISSING], "reader_fallback": MISSING, "iter_source": MISSING, "reader_reads": [MISSING]}
     tree = ast.parse(PSD.read_text())
     g = _func(tree, "_get_layer_info", "PSD")
     if g is not None:
+        # every attribute chain rooted at `self` that the accessor reads (longest chains only): what the choice of the
+        # place can depend on (the model's `readerSlot` depends on the presence of the two blocks, on nothing else)
+        chains = set()
+        for n in ast.walk(g):
+            if isinstance(n, ast.Attribute):
+                root = n
+                while isinstance(root, ast.Attribute):
+                    root = root.value
+                if isinstance(root, ast.Name) and root.id == "self":
+                    chains.add(ast.unparse(n))
+        info["reader_reads"] = sorted(c for c in chains if not any(o != c and o.startswith(c + ".") for o in chains))
         loops = [n for n in ast.walk(g) if isinstance(n, ast.For)]
         if len(loops) == 1:
             body_returns = [n for n in ast.walk(loops[0]) if isinstance(n, ast.Return)]
@@ -168,6 +179,8 @@ namespace PsdVerif.Generated.Reopen
 def readerKeys : List String := {_strs(r["reader_keys"])}
 /-- … else its final `return` -/
 def readerFallback : String := {lean_str(r["reader_fallback"])}
+/-- `PSD._get_layer_info`: every attribute chain rooted at `self` it reads (maximal ones, sorted) -/
+def readerReads : List String := {_strs(r["reader_reads"])}
 /-- `PSD._iter_layers`: the expression bound to `layer_info` -/
 def iterSource : String := {lean_str(r["iter_source"])}
 /-- `PSDImage._init`: what the record loop iterates over -/
